@@ -1041,6 +1041,24 @@ def uniform_swing_request_replay(lambda_=3.0):
         if not ok_rows:
             out["weights_passed"], out["baselines"] = [float(v) for v in arrs.get("weights")[:4]], [float(v) for v in rep.last_election_results_turnout[:4]]
         out["ok"] = bool(ok_req and close and ok_rows)
+        # second election: a large swing (about +58%) and outstanding units whose baseline is the bare smoothing constant 1
+        # (previous result 0): they, too, are scaled by the one common factor
+        swing = np.array([0.40, 0.45, 0.50, 0.55, 0.58, 0.58, 0.60, 0.62, 0.65, 0.70, 0.75, 0.80])
+        last_r = np.array([800.0, 900, 1000, 1100, 1200, 1300, 1250, 1150, 1050, 950, 850, 750]) + 1
+        rep2 = pd.DataFrame({"postal_code": "AA", "geographic_unit_fips": [f"r{i}" for i in range(12)], "reporting": 1, "unit_category": "expected", "last_election_results_turnout": last_r, "results_turnout": np.round(last_r * (1 + swing))})
+        rep2["residuals_turnout"] = (rep2.results_turnout - rep2.last_election_results_turnout) / rep2.last_election_results_turnout
+        non2 = pd.DataFrame({"postal_code": "AA", "geographic_unit_fips": [f"n{i}" for i in range(5)], "reporting": 0, "unit_category": "expected", "last_election_results_turnout": [501.0, 1.0, 78.0, 1.0, 2001.0], "results_turnout": [10.0, 0.0, 200.0, 7.0, 0.0]})
+        non2["residuals_turnout"] = (non2.results_turnout - non2.last_election_results_turnout) / non2.last_election_results_turnout
+        m2 = NonparametricElectionModel({})
+        preds2, _ = m2.get_unit_predictions(rep2, non2, "turnout")
+        w2 = (rep2.last_election_results_turnout / rep2.last_election_results_turnout.sum()).to_numpy()
+        med2 = weighted_median(rep2.residuals_turnout.to_numpy(), w2)
+        want2 = np.maximum(np.round(non2.last_election_results_turnout * (1 + med2)), non2.results_turnout)
+        ok2 = bool(np.all(np.abs(np.asarray(preds2, dtype=float) - np.asarray(want2)) <= np.maximum(1.0, 0.01 * np.asarray(want2))) and float(np.asarray(preds2, dtype=float)[1]) == float(np.asarray(want2)[1]))
+        out["unit_with_the_smallest_baseline_is_scaled_by_the_common_factor_too"] = ok2
+        if not ok2:
+            out["predictions_second_election"], out["expected_second_election"] = [float(x) for x in np.asarray(preds2, dtype=float)], [float(x) for x in np.asarray(want2)]
+        out["ok"] = bool(out["ok"] and ok2)
     except Exception as e:  # noqa
         out["exc"] = f"{type(e).__name__}: {e}"
         out["ok"] = False
@@ -1234,9 +1252,11 @@ def results_saved_before_gate_replay():
         s3.S3Util.put = fake_put
         base = synthetic(12, seed=3, states=("AA",))
         ok = True
-        for n_reporting in (3, 0):  # too few reporting units, and none at all (start of the night)
+        for n_reporting in (3, 0, -1):  # too few reporting units, none at all (start of the night), and NO ROW yet in the feed
             del puts[:]
-            cur = feed(base, [100] * n_reporting + [0] * (12 - n_reporting))
+            cur = feed(base, [100] * max(n_reporting, 0) + [0] * (12 - max(n_reporting, 0)))
+            if n_reporting < 0:
+                cur = cur.iloc[:0]
             raised = False
             try:
                 run_client(cur, base, prediction_intervals=(0.9,), pi_method="nonparametric", save_output=["results"])
@@ -1992,6 +2012,9 @@ def population_correction_replay():
     m = NonparametricElectionModel({})
     rng = np.random.default_rng(12)
     cases = [([50] * 16 + [146, 30, 24], list(range(19)), 0.9 * (1 + 1 / 19))]
+    # calibration units of EQUAL baseline size (the setting of the coverage clause), several sizes and levels
+    for n_eq, al in ((20, 0.9), (20, 0.7), (16, 0.8), (32, 0.95), (8, 0.7)):
+        cases.append(([64] * n_eq, [float(v) for v in rng.permutation(n_eq)], al * (1 + 1 / n_eq)))
     for _ in range(400):
         n = int(rng.integers(2, 40))
         raw = rng.integers(1, 60, n).astype(int)
@@ -2311,4 +2334,201 @@ def final_tables_replay():
     except Exception as e:  # noqa
         out["exc"] = f"{type(e).__name__}: {e}"
         out["ok"] = False
+    return out
+
+
+def inaccurate_solution_in_a_run_replay():
+    """REAL NonparametricElectionModel (regularised fits: the cvxpy path) through get_unit_predictions and
+    get_unit_prediction_intervals, with the k-th cvxpy solve of the run reporting status optimal_inaccurate (for every k):
+    the fit that got the inaccurate solution must be attempted again without weight normalisation, right away"""
+    import ast as _ast
+    import inspect as _inspect
+
+    import cvxpy.settings as cs
+    from cvxpy.reductions.solvers.solving_chain import SolvingChain
+    from elexsolver.QuantileRegressionSolver import QuantileRegressionSolver
+
+    import elexmodel.models.ConformalElectionModel as CM
+    from elexmodel.models.NonparametricElectionModel import NonparametricElectionModel
+
+    rng = np.random.default_rng(3)
+    n_rep, n_non = 40, 5
+
+    def frame(n, rep):
+        last = rng.integers(500, 5000, n).astype(float) + 1
+        df = pd.DataFrame({"postal_code": "AA", "geographic_unit_fips": [f"{'r' if rep else 'n'}{i}" for i in range(n)], "reporting": int(rep), "unit_category": "expected", "last_election_results_turnout": last, "f1": rng.normal(size=n)})
+        df["results_turnout"] = np.round(last * (1 + 0.05 * df.f1 + rng.normal(0, 0.05, n))) if rep else 0.0
+        df["residuals_turnout"] = (df.results_turnout - last) / last
+        return df
+
+    rep, non = frame(n_rep, True), frame(n_non, False)
+    real_invert, real_fit = SolvingChain.invert, QuantileRegressionSolver.fit
+    out = {"exc": None, "problems": [], "solves": 0}
+
+    def run(bad_at):
+        state, log = {"n": 0}, []
+
+        def invert(self, solution, inverse_data):
+            sol = real_invert(self, solution, inverse_data)
+            if state["n"] == bad_at:
+                sol.status = cs.OPTIMAL_INACCURATE
+            state["n"] += 1
+            return sol
+
+        def fit(self, *a, **k):
+            log.append(bool(k.get("normalize_weights", True)))
+            return real_fit(self, *a, **k)
+
+        SolvingChain.invert, QuantileRegressionSolver.fit = invert, fit
+        try:
+            with warnings.catch_warnings():
+                warnings.resetwarnings()
+                for node in _ast.parse(_inspect.getsource(CM)).body:  # the module's OWN top-level warning filters
+                    if isinstance(node, _ast.Expr) and isinstance(node.value, _ast.Call) and _ast.unparse(node.value.func) == "warnings.filterwarnings":
+                        exec(compile(_ast.Module([node], []), "<the module's filter>", "exec"), {"warnings": warnings})
+                m = NonparametricElectionModel({"lambda_": 1.0, "features": ["f1"]})
+                m.get_unit_predictions(rep.copy(), non.copy(), "turnout")
+                m.get_unit_prediction_intervals(rep.copy(), non.copy(), 0.9, "turnout")
+        finally:
+            SolvingChain.invert, QuantileRegressionSolver.fit = real_invert, real_fit
+        return log, state["n"]
+
+    try:
+        log0, n_solves = run(-1)
+        out["solves"] = n_solves
+        for k in range(n_solves):
+            log, _ = run(k)
+            want = log0[: k + 1] + [False] + log0[k + 1 :]
+            if log != want:
+                out["problems"].append({"inaccurate_solve": k, "fit_attempts_normalize_weights": log, "expected": want})
+        out["problems"] = out["problems"][:4]
+        out["ok"] = not out["problems"] and n_solves >= 3
+    except Exception as e:  # noqa
+        import traceback
+
+        out["exc"] = f"{type(e).__name__}: {e}"
+        out["trace"] = traceback.format_exc()[-500:]
+        out["ok"] = False
+    return out
+
+
+def national_summary_history_replay():
+    """REAL client, bootstrap estimator: the national summary for (weights, base, alpha 0.9) must be the same table on a
+    fresh client as on a client on which the summary was requested before with another level, and as after an earlier run
+    plus summary with other weights"""
+    base = synthetic(120, seed=5, states=("AA", "BB", "CC"))
+    cur = feed(base, [100] * 75 + [30] * 45)
+    cur_b = feed(base, [100] * 60 + [20] * 60, seed=3)
+    weights = {"AA": 9, "BB": 3, "CC": 16}
+    out = {"exc": None, "problems": []}
+
+    def run(c, data):
+        with warnings.catch_warnings():
+            warnings.simplefilter("ignore")
+            return run_client(data, base, estimands=("margin",), pi_method="bootstrap", prediction_intervals=(0.9,), aggregates=("postal_code", "unit"), model_parameters={"B": 40, "seed": 7}, features=("baseline_normalized_margin",), client=c)
+
+    try:
+        from elexmodel.client import ModelClient
+
+        c1 = ModelClient()
+        run(c1, cur)
+        ref = c1.get_national_summary_votes_estimates(dict(weights), 100, [0.9])
+        c2 = ModelClient()
+        run(c2, cur)
+        c2.get_national_summary_votes_estimates(dict(weights), 100, [0.8])
+        t2 = c2.get_national_summary_votes_estimates(dict(weights), 100, [0.9])
+        c3 = ModelClient()
+        run(c3, cur_b)
+        c3.get_national_summary_votes_estimates(None, 0, [0.7])
+        run(c3, cur)
+        t3 = c3.get_national_summary_votes_estimates(dict(weights), 100, [0.9])
+        for name, t_ in (("after a summary at another level", t2), ("after an earlier run and summary with other weights", t3)):
+            if list(t_.columns) != list(ref.columns) or not t_.reset_index(drop=True).equals(ref.reset_index(drop=True)):
+                out["problems"].append({"history": name, "columns": list(t_.columns), "fresh_columns": list(ref.columns), "values": [str(x) for x in np.asarray(t_).ravel().tolist()[:6]], "fresh_values": [str(x) for x in np.asarray(ref).ravel().tolist()[:6]]})
+        out["ok"] = not out["problems"]
+    except Exception as e:  # noqa
+        import traceback
+
+        out["exc"] = f"{type(e).__name__}: {e}"
+        out["trace"] = traceback.format_exc()[-500:]
+        out["ok"] = False
+    return out
+
+
+def national_summary_two_calls_replay():
+    """REAL get_national_summary_estimates (threshold mode) asked twice on ONE model object: first without weights (count of
+    contests won), then with electoral-vote weights and base 100 -- the second prediction must be 100 + the weights of the
+    contests with a positive margin"""
+    from elexmodel.models.BootstrapElectionModel import BootstrapElectionModel
+
+    B = 20
+    m = BootstrapElectionModel({"features": ["baseline_normalized_margin"], "B": B, "agg_model_hard_threshold": True, "national_summary_correlation": False})
+    rng = np.random.default_rng(0)
+    margins = {"a": -0.2, "b": 0.3, "c": 0.1, "d": 0.25, "e": -0.05, "f": 0.4}
+    weights = {"a": 9, "b": 3, "c": 55, "d": 29, "e": 4, "f": 16}
+    names = sorted(margins)
+    m.aggregate_pred_margin = np.array([[margins[k]] for k in names])
+    noise = rng.normal(0, 0.01, size=(len(names), B))
+    m.divided_error_B_1, m.divided_error_B_2 = noise, noise * 0.5
+    m.called_contests = np.full((len(names), 1), -1)
+    m.stop_model_call = np.full((len(names), 1), False)
+    out = {"exc": None}
+    try:
+        first = m.get_national_summary_estimates(None, 0, 0.9)["margin"]
+        second = m.get_national_summary_estimates(dict(weights), 100, 0.9)["margin"]
+        want1 = float(sum(1 for k in names if margins[k] > 0))
+        want2 = float(100 + sum(weights[k] for k in names if margins[k] > 0))
+        out.update(first=float(first[0]), second=float(second[0]), want_first=want1, want_second=want2)
+        out["ok"] = bool(abs(first[0] - want1) < 1e-9 and abs(second[0] - want2) < 1e-9)
+    except Exception as e:  # noqa
+        out["exc"] = f"{type(e).__name__}: {e}"
+        out["ok"] = False
+    return out
+
+
+def historical_hidden_results_replay():
+    """REAL HistoricalModelClient._format_historical_current_data with the historical file and the live frame listing the units
+    in DIFFERENT orders (and the live frame with a non-default index): the historical result of a unit at or above the
+    reporting threshold must be passed on, the historical result of every unit below it must be replaced by 0"""
+    import elexmodel.client as cl
+
+    n = 12
+    hist = pd.DataFrame({"postal_code": "AA", "geographic_unit_fips": [f"u{i:02d}" for i in range(n)], "county_fips": [f"c{i % 3}" for i in range(n)], "results_dem": [100.0 + 7 * i for i in range(n)], "results_turnout": [300.0 + 11 * i for i in range(n)]})
+    pev = [100 if i % 3 else 40 for i in range(n)]
+    live = pd.DataFrame({"postal_code": "AA", "geographic_unit_fips": [f"u{i:02d}" for i in range(n)], "percent_expected_vote": pev})
+    live = live.iloc[::-1]  # reversed order, index labels n-1 .. 0
+    live.index = [5 + 2 * k for k in range(n)]
+
+    class PDH:
+        def __init__(self, *a, **k):
+            self.data = hist.copy()
+
+    saved = (cl.PreprocessedDataHandler, cl.s3.S3CsvUtil)
+    out = {"exc": None, "problems": []}
+    try:
+        cl.PreprocessedDataHandler = PDH
+        cl.s3.S3CsvUtil = lambda *a, **k: None
+        c = cl.HistoricalModelClient()
+        c.aggregates = ["unit", "county_fips"]
+        for ests in (["dem"], ["turnout"], ["dem", "turnout"]):
+            res, _ = c._format_historical_current_data(live.copy(), "hist", "S", "county", list(ests), {}, 100)
+            res = res.set_index("geographic_unit_fips")
+            for i in range(n):
+                uid = f"u{i:02d}"
+                for e in ests:
+                    want = float(hist.loc[i, f"results_{e}"]) if pev[i] >= 100 else 0.0
+                    if float(res.loc[uid, f"results_{e}"]) != want:
+                        out["problems"].append({"estimands": ests, "unit": uid, "percent_expected_vote": pev[i], "column": f"results_{e}", "got": float(res.loc[uid, f"results_{e}"]), "want": want})
+            if sorted(res.index) != [f"u{i:02d}" for i in range(n)]:
+                out["problems"].append({"estimands": ests, "what": "rows are not the units present in both tables"})
+        out["problems"] = out["problems"][:4]
+        out["ok"] = not out["problems"]
+    except Exception as e:  # noqa
+        import traceback
+
+        out["exc"] = f"{type(e).__name__}: {e}"
+        out["trace"] = traceback.format_exc()[-500:]
+        out["ok"] = False
+    finally:
+        cl.PreprocessedDataHandler, cl.s3.S3CsvUtil = saved
     return out
